@@ -1,7 +1,7 @@
 #!/bin/bash
 # Build /repo's CURRENT working tree (library + bxdecay0-run) with the project's own CMake
 # definition into a content-addressed cache directory and print that directory.
-#   usage: buildlib.sh <variant>     variant in {plain, asan, tsan}
+#   usage: buildlib.sh <variant>     variant in {plain, asan, tsan, pattern}
 # The cache key is a hash of every input of the build (sources, cmake files, resources list),
 # so an edit to /repo always yields a fresh build; an unchanged tree reuses the previous one.
 set -euo pipefail
@@ -14,6 +14,9 @@ case "$VARIANT" in
   plain) FLAGS="-O2 -g1 -fno-omit-frame-pointer -fno-optimize-sibling-calls" ;;
   asan)  FLAGS="-O1 -g1 -fno-omit-frame-pointer -fsanitize=address,undefined,float-cast-overflow -fno-sanitize=float-divide-by-zero -fsanitize-recover=all -D_GLIBCXX_ASSERTIONS" ;;
   tsan)  FLAGS="-O1 -g1 -fno-omit-frame-pointer -fsanitize=thread" ;;
+  # unoptimised, every automatic variable pre-filled with a byte pattern: a read of a never-assigned local then yields
+  # a deterministic absurd value instead of whatever the optimiser substitutes for the undefined value
+  pattern) FLAGS="-O0 -g1 -ftrivial-auto-var-init=pattern" ;;
   *) echo "unknown variant $VARIANT" >&2; exit 2 ;;
 esac
 FLAGS="$FLAGS -DBXDECAY0_VERIF"
